@@ -195,11 +195,11 @@ Definition default_opts : op_opts := mkOpts default_strip_prompt default_eager d
 Definition echo_cond (o : op_opts) (input : bytes) : cond :=
   if o_exact o then CExplicit input else CFuzzy input.
 
-(* ReadUntilFuzzy returns at once for an empty input; ReadUntilExplicit does not *)
+(* ReadUntilFuzzy and (since the fix of F30) ReadUntilExplicit return at once for an empty input *)
 Definition until_echo {R} (o : op_opts) (input : bytes) (k : bytes -> prog R) : prog R :=
-  match input, o_exact o with
-  | [], false => k []
-  | _, _ => Until (echo_cond o input) k Fail
+  match input with
+  | [] => k []
+  | _ => Until (echo_cond o input) k Fail
   end.
 
 (* Channel.SendInputB *)
